@@ -55,6 +55,13 @@ DelayOK(op, res) == LET r == RetryRes(op.a[1], SubSeq(op.a, 3, Len(op.a))) IN
                     /\ (op.a[1] >= 1 => res.ok = r.ok)
                     /\ (r.inv >= 2 => res.s[3] >= op.a[2])
 
+\* the same with a callback that takes time itself: res.s[3] = the smallest wait observed between the
+\* end of a failed attempt and the start of the next one (op.a[3], op.a[4] = the callback's durations)
+DelayCOK(op, res) == LET r == RetryRes(op.a[1], SubSeq(op.a, 5, Len(op.a))) IN
+                     /\ res.s[1] = r.inv /\ res.v = r.att
+                     /\ (op.a[1] >= 1 => res.ok = r.ok)
+                     /\ (r.inv >= 2 => res.s[3] >= op.a[2])
+
 OutR(s, op, res) ==
     CASE op.n = "after_new"  -> { O([S0 EXCEPT !.k = "after", !.n = op.a[1]], R(TRUE, 0, <<>>)) }
       [] op.n = "before_new" -> { O([S0 EXCEPT !.k = "before", !.n = op.a[1], !.off = op.a[2]], R(TRUE, 0, <<>>)) }
@@ -65,6 +72,7 @@ OutR(s, op, res) ==
                             [] s.k = "once" -> OnceCall(s) [] OTHER -> {})
       [] op.n = "retry"      -> IF ~res.p /\ RetryOK(op, res) THEN { O(s, res) } ELSE {}
       [] op.n = "retrydelay" -> IF ~res.p /\ DelayOK(op, res) THEN { O(s, res) } ELSE {}
+      [] op.n = "retrydelayc" -> IF ~res.p /\ DelayCOK(op, res) THEN { O(s, res) } ELSE {}
       [] OTHER -> {}
 Out(s, op) == OutR(s, op, [ok |-> FALSE, v |-> 0, s |-> <<>>, p |-> TRUE])
 
